@@ -88,6 +88,7 @@ type Exec struct {
 	rets   []retRec
 	inline bool
 	allocByPos map[token.Pos]*ssa.Alloc
+	lemmaAt    map[ssa.Instruction][]*PointLemma // program-point lemmas by the instruction they are checked in front of
 	loopSnap map[*ssa.BasicBlock]*State
 	loopVar  map[*ssa.BasicBlock]string
 	props  []string
@@ -192,7 +193,7 @@ func (x *Exec) oblige(st *State, kind string, pos token.Pos, goal string, tag st
 	o := &Obligation{Name: name, Kind: kind, Func: x.key, Props: props, Tag: tag, Pos: where, Text: txt,
 		guard: st.guard, goal: goal, nAssert: len(x.c.assert), nDecl: len(x.c.decls), ctx: x.c, block: x.c.curBlock}
 	switch kind {
-	case "ensures", "inv-pres", "inv-init", "back-when", "exit-when":
+	case "ensures", "inv-pres", "inv-init", "back-when", "exit-when", "lemma":
 		if r := x.root(); len(r.lastUses) > 0 {
 			o.uses = map[string]bool{}
 			for _, u := range r.lastUses {
@@ -240,6 +241,68 @@ func (x *Exec) returnRank(pos token.Pos, txt string) string {
 		return ""
 	}
 	return fmt.Sprintf("~%d", rank)
+}
+
+// placeLemmas finds, for every program-point lemma of the contract, the first
+// instruction (block order, then instruction order) on the k-th source line of
+// the function whose text matches.
+func (x *Exec) placeLemmas() {
+	x.lemmaAt = map[ssa.Instruction][]*PointLemma{}
+	if x.fc == nil || len(x.fc.Lemmas) == 0 || x.inline {
+		return
+	}
+	first := map[int]ssa.Instruction{} // source line -> first instruction on it
+	var lines []int
+	for _, b := range x.fn.Blocks {
+		for _, in := range b.Instrs {
+			if _, ok := in.(*ssa.DebugRef); ok {
+				continue
+			}
+			if !in.Pos().IsValid() {
+				continue
+			}
+			l := x.p.fset.Position(in.Pos()).Line
+			if _, ok := first[l]; !ok {
+				first[l] = in
+				lines = append(lines, l)
+			}
+		}
+	}
+	sort.Ints(lines)
+	for _, lm := range x.fc.Lemmas {
+		n := 0
+		placed := false
+		for _, l := range lines {
+			_, txt := x.v.srcLine(x.p, first[l].Pos())
+			match := txt == lm.Text
+			if pre, ok := strings.CutSuffix(lm.Text, "..."); ok {
+				match = strings.HasPrefix(txt, pre) // "<prefix>...": any statement starting like this
+			}
+			if match {
+				n++
+				if n == lm.K {
+					x.lemmaAt[first[l]] = append(x.lemmaAt[first[l]], lm)
+					placed = true
+					break
+				}
+			}
+		}
+		if !placed {
+			panic(contractError{fmt.Sprintf("%s: no statement %q (occurrence %d) in %s", lm.Cl.Line, lm.Text, lm.K, x.key)})
+		}
+	}
+}
+
+// checkLemmas proves the lemmas placed in front of in (old = function entry)
+// and assumes them from here on.
+func (x *Exec) checkLemmas(st *State, in ssa.Instruction, ls []*PointLemma) {
+	for _, lm := range ls {
+		env := &Env{x: x, c: x.c, st: st, old: x.entry, vars: x.params, oldVars: x.params, free: x.freeVals, fn: x.fn, pos: in.Pos(), useCells: true}
+		goal := x.evalClause(env, lm.Cl)
+		x.root().lastUses = lm.Cl.Uses
+		x.oblige(st, "lemma", in.Pos(), goal, strings.Join(lm.Cl.Tags, ",")+":"+fmt.Sprintf("before#%d", lm.K), x.clauseProps(lm.Cl))
+		x.root().lastUses = nil
+	}
 }
 
 func (x *Exec) root() *Exec {
@@ -334,6 +397,7 @@ func (x *Exec) run(st0 *State) {
 	x.loopSnap = map[*ssa.BasicBlock]*State{}
 	x.loopVar = map[*ssa.BasicBlock]string{}
 	x.allocByPos = map[token.Pos]*ssa.Alloc{}
+	x.placeLemmas()
 	for _, b := range fn.Blocks {
 		for _, in := range b.Instrs {
 			if a, ok := in.(*ssa.Alloc); ok && a.Pos().IsValid() {
@@ -890,6 +954,7 @@ func (x *Exec) enterLoop(li *loopInfo, edges []edgeState) *State {
 	}
 	if lm.writes {
 		x.c.havocWfault(st)
+		x.c.havocBuflen(st)
 	}
 	if lm.locks {
 		st.cells["$held"] = Val{S: x.c.freshSort("held", "Bool")}
@@ -1166,6 +1231,9 @@ func (x *Exec) execBlockWith(b *ssa.BasicBlock, st *State, push func(from, to *s
 	}
 	x.c.curGuard = st.guard
 	for _, in := range b.Instrs {
+		if ls := x.lemmaAt[in]; len(ls) > 0 && !x.inline {
+			x.checkLemmas(st, in, ls)
+		}
 		switch in := in.(type) {
 		case *ssa.Phi:
 			continue
